@@ -37,6 +37,7 @@ structure OState where
   c02 : Bool := false
   fmt : Option WFmt := none
   fmtName : String := ""
+  filter : String := "none"
   aborted : Bool := false
   written : List Written := []
   closeCode : Nat := 0
@@ -45,6 +46,11 @@ structure OState where
   closeSt : String := ""
   closed : Bool := false
   reads : List ReadObs := []
+  rwFmt : Option WFmt := none     -- `rewrite` target
+  rwH : List String := []         -- header statuses of the rewrite
+  rwEnd : String := ""
+  rwCode : Nat := 0
+  reads2 : List ReadObs := []
   bad : Option String := none     -- malformed observation
 
 def parseOct (s : String) : Nat := s.toList.foldl (fun a c => a * 8 + (c.toNat - 48)) 0
@@ -95,8 +101,7 @@ def expectedBody (e : Entry) (seed len : Nat) : List Nat :=
 def accepted (f : WFmt) (w : Written) : Bool := w.hst == "ok" || (w.hst == "warn" && f.warnStores)
 
 /-- Check one (written, read) pair. -/
-def checkPair (c02 : Bool) (f : WFmt) (w : Written) (r : ReadObs) : Option String :=
-  let tag := s!"f={f.name}"
+def checkPair (c02 : Bool) (f : WFmt) (tag : String) (w : Written) (r : ReadObs) : Option String :=
   if c02 && representable f w.e && w.hst != "ok" then
     some s!"C02 {tag} representable entry not accepted status={w.hst}"
   else if w.hst != "ok" then none        -- reported: nothing is promised about the stored value
@@ -121,6 +126,52 @@ def isParentOf (dir : List Nat) (p : List Nat) : Bool :=
   let q := joinSlash (cleanComponents p)
   d.isEmpty || (d.length < q.length && q.take d.length == d && q.getD d.length 0 == slash)
 
+/-- C02's fixed-point clause: the entries obtained from the read, fed unchanged into writer `g`
+and read again, come back as `norm g` of themselves (for `g = f`: unchanged). -/
+def rewriteVerdict (s : OState) (f : WFmt) : Option String :=
+  match s.rwFmt with
+  | none => none
+  | some g =>
+    let tag := s!"f={f.name} rewrite={g.name}"
+    -- pair every first-read entry with its header status in the rewrite
+    let items := (s.reads.zip (s.rwH ++ List.replicate s.reads.length "?")).filter fun p =>
+      !((norm g p.1.rb.toEntry).path.getD []).isEmpty      -- the synthesised root directory of a container
+    let acc := items.filter fun p => p.2 == "ok" || (p.2 == "warn" && g.warnStores)
+    let refused := items.findSome? fun p =>
+      if representable g p.1.rb.toEntry && p.2 != "ok" then
+        some s!"C02 {tag} representable read-back entry not accepted status={p.2} path={LA.toHex p.1.rb.path}"
+      else none
+    refused.orElse fun _ =>
+    if items.any (fun p => p.2 == "fatal") then none else     -- C10 territory
+    let check (r1 : ReadObs) (h : String) (r2 : ReadObs) : Option String :=
+      if h != "ok" || !representable g r1.rb.toEntry then none else    -- unrepresentable but accepted: C10's business
+      match (norm g r1.rb.toEntry).mismatch r2.rb r2.nsec with
+      | some m => some s!"C02 {tag} status=ok field={m}"
+      | none =>
+        if (norm g r1.rb.toEntry).body && (norm f r1.rb.toEntry).body && !r1.skipped
+            && (r1.bodyLen != r2.bodyLen || r1.bodyHash != r2.bodyHash) then
+          some s!"C02 {tag} status=ok field=body differs"
+        else none
+    let pairs : Option String :=
+      if g.unordered || f.unordered then
+        acc.findSome? fun p =>
+          let want := (norm g p.1.rb.toEntry).path.getD []
+          match s.reads2.find? (fun r => r.rb.path == want || r.rb.path == want ++ [slash] || r.rb.path ++ [slash] == want) with
+          | some r2 => check p.1 p.2 { r2 with rb := { r2.rb with path := want } }
+          | none => if p.2 == "ok" then some s!"C02 {tag} accepted entry not read back path={LA.toHex want}" else none
+      else
+        let rec go : List (ReadObs × String) → List ReadObs → Option String
+          | p :: ps, r2 :: rs => (check p.1 p.2 r2).orElse fun _ => go ps rs
+          | p :: _, [] => some s!"C02 {tag} accepted entry not read back path={LA.toHex p.1.rb.path}"
+          | [], r2 :: _ => some s!"C02 {tag} entry read back that was never accepted path={LA.toHex r2.rb.path}"
+          | [], [] => none
+        go acc s.reads2
+    pairs.orElse fun _ =>
+      if s.rwEnd != "eof" then some s!"C02 {tag} archive does not end cleanly end={s.rwEnd}"
+      else if !s.reads2.isEmpty && !g.codes.contains s.rwCode then
+        some s!"C02 {tag} detected format {String.ofList (Nat.toDigits 16 s.rwCode)}"
+      else none
+
 def verdict (s : OState) : String :=
   match s.bad with
   | some b => "BAD-OBS " ++ b
@@ -129,13 +180,17 @@ def verdict (s : OState) : String :=
   | none => "ok"      -- not a round-trip case (formatter ops only)
   | some f =>
     if s.written.any (fun w => w.hst.startsWith "!") then s!"C10 f={f.name} crashed in archive_write_header" else
+    if s.closeSt.startsWith "!" then s!"C02 f={f.name} crashed in archive_write_close" else
     if !s.closed then "ok" else
     let acc := s.written.filter (accepted f)
-    let tag := s!"f={f.name}"
+    let tag := if s.filter == "none" then s!"f={f.name}" else s!"f={f.name} filter={s.filter}"
     -- a header refusal that is FATAL kills the handle: every later entry is rejected too, which is
     -- not "a refused entry leaves an archive that still reads back as the accepted entries"
     if s.written.any (·.hst == "fatal") then s!"C10 {tag} refusal was fatal: the archive cannot take further entries"
     else if s.written.any (fun w => w.hst.startsWith "!") then s!"C10 {tag} crashed in archive_write_header"
+    else
+    if s.reads.isEmpty && s.closeEnd == "fatal" && s.closeSt == "ok" && !s.aborted && s.written.all (·.hst == "ok") && !s.written.isEmpty then
+      s!"C02 {tag} every entry accepted with ARCHIVE_OK but the archive cannot be read back at all"
     else
     if s.closeSt == "fatal" || s.closeSt == "failed" then
       s!"C10 {tag} close failed status={s.closeSt} after the entries were accepted"
@@ -153,7 +208,7 @@ def verdict (s : OState) : String :=
         let warns := acc.filter (·.hst != "ok")
         let miss := oks.findSome? fun w =>
           match s.reads.find? (fun r => same r w) with
-          | some r => checkPair s.c02 f w { r with rb := { r.rb with path := (norm f w.e).path.getD [] } }
+          | some r => checkPair s.c02 f tag w { r with rb := { r.rb with path := (norm f w.e).path.getD [] } }
           | none => some s!"C10 {tag} accepted entry not read back path={LA.toHex ((norm f w.e).path.getD [])}"
         miss.orElse fun _ =>
           let strangers := s.reads.filter fun r =>
@@ -164,7 +219,7 @@ def verdict (s : OState) : String :=
           else none
       else
         let rec go : List Written → List ReadObs → Option String
-          | w :: ws, r :: rs => (checkPair s.c02 f w r).orElse fun _ => go ws rs
+          | w :: ws, r :: rs => (checkPair s.c02 f tag w r).orElse fun _ => go ws rs
           | w :: _, [] => if s.aborted then none else some s!"C10 {tag} accepted entry not read back path={LA.toHex (w.e.path.getD [])}"
           | [], r :: _ => some s!"C10 {tag} entry read back that was never accepted path={LA.toHex r.rb.path}"
           | [], [] => none
@@ -179,13 +234,16 @@ def verdict (s : OState) : String :=
       if !endOk then s!"C02 {tag} archive does not end cleanly end={s.closeEnd}"
       else if s.c02 && !codeOk then s!"C02 {tag} detected format {String.ofList (Nat.toDigits 16 s.closeCode)}"
       else if s.closeSt != "ok" then s!"C10 {tag} close status={s.closeSt}"
-      else "ok"
+      else match rewriteVerdict s f with
+        | some m => m
+        | none => "ok"
 
 def oStep (s : OState) (op obs : String) : OState × String :=
   match LA.words op with
   | "open" :: ws =>
     let name := (kv ws "f").getD ""
-    ({ s with fmt := WFmt.ofName name, fmtName := name, written := [], reads := [], closed := false, aborted := false }, "-")
+    ({ s with fmt := WFmt.ofName name, fmtName := name, filter := (kv ws "filter").getD "none", written := [], reads := [],
+              closed := false, aborted := false }, "-")
   | "ent" :: ws =>
     let e := parseEntry ws
     let hst := if obs.startsWith "!" then "!crash" else obsField obs "h"
@@ -206,9 +264,20 @@ def oStep (s : OState) (op obs : String) : OState × String :=
       ({ s with closed := true, aborted := c == "abort"
               , closeCode := parseHexNat ((kv ws "fmt").getD "0")
               , closeN := ((kv ws "n").bind String.toNat?).getD 0
-              , closeEnd := (kv ws "end").getD "?", closeSt := (kv ws "c").getD "?" }, "-")
+              , closeEnd := (kv ws "end").getD "?", closeSt := if obs.startsWith "!" then "!crash" else (kv ws "c").getD "?" }, "-")
     else if c == "done" then (s, verdict s)
     else (s, "-")
+  | "rewrite" :: ws =>
+    let o := LA.words obs
+    ({ s with rwFmt := (kv ws "f").bind WFmt.ofName
+            , rwH := ((kv o "h").getD "").splitOn ","
+            , rwEnd := (kv o "end").getD "?"
+            , rwCode := parseHexNat ((kv o "fmt").getD "0"), reads2 := [] }, "-")
+  | ["rd2", _] =>
+    if obs == "none" || obs.startsWith "!" then (s, "-")
+    else match parseRead obs with
+      | some r => ({ s with reads2 := s.reads2 ++ [r] }, "-")
+      | none => ({ s with bad := some ("unparsable rd2 line: " ++ (obs.take 80).toString) }, "-")
   | ["rd", _] =>
     if obs == "none" || obs.startsWith "!" then (s, "-")
     else match parseRead obs with
